@@ -59,6 +59,18 @@ def main():
                 for insecure in (0, 1):
                     out.append("sec s%d creds=%d dtls=%s insecure=%d\n" % (k, creds, dtls, insecure))
                     k += 1
+    elif profile == 'iso':
+        k = 0
+        for order in ('afirst', 'bfirst'):
+            for bdies in ('error', 'disconnect'):
+                # the second peer's password: shorter than, as long as, longer than the gateway's default one
+                pb = r.choice([b'pB', b'pBpBpBpBpBp', b'a-much-longer-password'])
+                out.append("iso i%d order=%s pb=%s bdies=%s\n" % (k, order, pb.hex(), bdies))
+                k += 1
+                if k >= n:
+                    break
+            if k >= n:
+                break
     else:
         for i in range(n):
             out.append(gen_case(r, i))
